@@ -10,7 +10,11 @@ use crate::{
     Call, Result,
 };
 pub use chain::Chain;
-use core::{fmt::Debug, sync::atomic::AtomicUsize};
+use core::fmt::Debug;
+#[cfg(not(zlink_verif_loom))]
+use core::sync::atomic::AtomicUsize;
+#[cfg(zlink_verif_loom)]
+use loom::sync::atomic::AtomicUsize;
 pub use write_connection::WriteConnection;
 
 use serde::{Deserialize, Serialize};
@@ -319,4 +323,10 @@ const MAX_BUFFER_SIZE: usize = 100 * 1024 * 1024; // Don't allow buffers over 10
 #[cfg(zlink_verif_small_buf)]
 const MAX_BUFFER_SIZE: usize = 4096;
 
+#[cfg(not(zlink_verif_loom))]
 static NEXT_ID: AtomicUsize = AtomicUsize::new(0);
+// Verification hook: the same counter as a loom atomic (see Cargo.toml).
+#[cfg(zlink_verif_loom)]
+loom::lazy_static! {
+    static ref NEXT_ID: AtomicUsize = AtomicUsize::new(0);
+}
